@@ -24,6 +24,7 @@ func stepAlphabet(depth int) []seqx.Step {
 		{Op: "HookNone"},
 		{Op: "HookDiscard"},
 		{Op: "HookCtx"},
+		{Op: "HookLevel"},
 		{Op: "Timestamp"},
 		{Op: "Caller"},
 		{Op: "Ctx", CtxID: depth + 1},
@@ -87,7 +88,7 @@ func runC03() {
 	r.Rule = "explicit-state search over logger derivation chains: every sequence of <= D steps from {With(fields), Hook(one/two/none/discarding/GetCtx-reading), Timestamp, Caller, Ctx, Level, Output, Sample, UpdateContext, Stack, empty With} is built on the real zerolog and stepped in lock-step with the reference model (reflogger); from every reached logger a set of event forms (entry x fields x finaliser) is emitted and the received token sequence, the per-hook invocation log and the destination are compared with the model; states = distinct (abstract logger state) reached, transitions = derivation steps + events; non-trivial = the chain contains a hook or a context field"
 	r.Assumptions = []string{"derivation depth <= 4 (quick) / 5 (thorough; depth 6 with all but two steps fixed to With(field))", "a hook that runs after a discarding hook may observe the original level or Disabled (the statement leaves it open)", "the value of the caller field is not compared here (C19)"}
 	if tier == "quick" {
-		r.Deadline = time.Now().Add(120 * time.Second)
+		r.Deadline = time.Now().Add(300 * time.Second)
 	} else {
 		r.Deadline = time.Now().Add(25 * time.Minute)
 	}
